@@ -363,7 +363,14 @@ def _chk_c11(model, xs, cs, key):
             def per(pl):
                 outs = []
                 for i in range(xs.shape[0]):
-                    ci = None if (c_probe is None or pl.cond_shape is None) else c_probe[i]
+                    # the constraint must hold for ANY conditioner output, so a synthetic condition of the
+                    # layer's own cond_shape is as good as a real one (and works under EmbedCondition)
+                    ci = None
+                    if pl.cond_shape is not None:
+                        size = 1
+                        for d_ in pl.cond_shape:
+                            size *= d_
+                        ci = (jnp.linspace(-1.0, 1.0, size) * (i + 1.0)).reshape(pl.cond_shape)
                     m, raw, wn = _planar_margin(pl, ci)
                     outs.append((m, raw, wn))
                     if pl.cond_shape is None:
@@ -705,9 +712,11 @@ def oracle_c11(world, result):
             continue
         try:
             r = _run_check("c11", _chk_c11, model, xs, cs, world["key_seed"])
-        except Exception as e:  # noqa: BLE001
-            V.append({"clause": "c11.check_raises", "detail": f"{label}: evaluating the constrained parameters raised {type(e).__name__}: {str(e)[:200]}"})
-            break
+        except NotImplementedError:
+            n_vac += 1
+            continue
+        # any other exception here is trouble in this checker (training already ran the model): it propagates
+        # to the worker, which reports a HARNESS-ERROR, never a violation
         n_checked += 1
         seen_keys.update(r.keys())
         for key, ok, msg in C11_RULES:
@@ -743,9 +752,9 @@ def oracle_c09(world, result):
             continue
         try:
             r = _run_check("c09", _chk_c09, model, xs, cs, world["key_seed"])
-        except Exception as e:  # noqa: BLE001
-            V.append({"clause": "c09.check_raises", "detail": f"{label}: evaluating the layer Jacobians raised {type(e).__name__}: {str(e)[:200]}"})
-            break
+        except NotImplementedError:
+            n_vac += 1
+            continue
         n_checked += 1
         P["vacuous_nan_jacobian_entries"] = P.get("vacuous_nan_jacobian_entries", 0) + int(r.get("nan_entries", 0))
         P["maf_nodes"] = int(r["n_maf_nodes"])
